@@ -20,10 +20,52 @@ from vp.core import Group, Undecided, Extracted, sha
 from vp.extract import extract_function, extract_block, rewrite, match_brace
 
 LEVEL = 'proof'
-EXPLANATION = ''          # filled in at the end of the file
-TRUSTED = []
-ASSUMPTIONS = []
-NOT_REACHED = []
+EXPLANATION = (
+    'Operators: the 22 static operator functions of occa::primitive that a constant expression can reach '
+    '(not_ positive negative tilde, the six comparisons, and_ or_, mult add sub div mod, bitAnd bitOr xor_, '
+    'rightShift leftShift) are C-extracted by script from src/types/primitive.cpp together with the real to<T>() '
+    '(instantiated textually for the 11 T), the real scalar constructors, the real primitiveType constants and the '
+    'real value union.  For every pair of concrete operand types and ALL operand bit patterns for which the C++ '
+    'result is defined, CBMC proves: no error is raised, the result tag is the C++ type of the expression '
+    '(_Generic on the expression itself) and the number held by the result equals the value of the expression as '
+    "CBMC's own C semantics evaluates it (spec written from the standard in contracts/C14/spec.h, not from the code); "
+    'plus freedom from signed overflow / division by zero / undefined shifts inside the folder under that precondition. '
+    'Tree evaluation: binaryOpNode/ternaryOpNode/leftUnaryOpNode::evaluate are compiled from their real text by the '
+    'C++ front end against ghost children that count evaluations: && / || with a deciding left operand do not evaluate '
+    'the right one, ?: evaluates exactly one branch and has the common type, every other operand is evaluated exactly once. '
+    'No loops except areBitwiseEqual (constant trip count 4/8, fully unwound): complete proofs, not bounded. '
+    'Literal typing (primitive::load) is not covered.')
+TRUSTED = ['cbmc 6.11.0 C front end; SAT back end (minisat) for integer and byte-level cases, cvc5 1.x (bit-vector + '
+           'floating-point theories) for * / % and every case with a floating operand',
+           'cbmc 6.11.0 C++ front end for the three evaluate() bodies (skeleton classes in contracts/C14/expr_skeleton.hpp: '
+           'flattened node classes with the real member names, ghost children, ghost operator application, stub primitive '
+           'with tag + truth value; real bitfield class, real rawOperatorType/operatorType definitions, real tag predicates)',
+           'C extraction rules (each must-fire, listed per function in the evidence): const-reference parameters by value, '
+           'x.to<T>() -> textual instance, primitiveType::N -> enumerator, primitive(e) -> _Generic constructor selection '
+           'with (_Bool) where C++ yields bool and C yields int, OCCA_FORCE_ERROR -> ghost flag; cross-checked in the '
+           'thorough tier by the fidelity groups (same concrete operands through the compiled library and the extracted text)',
+           'contracts/C14/spec.h: tag-of-expression by _Generic, exact cross-type value comparison, definedness predicates',
+           'GCC builtins __builtin_{add,sub,mul}_overflow as modelled by CBMC (used only in the definedness precondition)']
+ASSUMPTIONS = ['LP64, two\'s complement, IEC 60559 float/double, round-to-nearest (CBMC default, = host default); '
+               'int32_t=int, int64_t=long (static-asserted in spec.h)',
+               'integer promotions and usual arithmetic conversions agree between C (CBMC) and C++ for bool, the eight '
+               'fixed-width integer types, float and double; relational/logical/! results are bool in C++ (cast to _Bool in the spec)',
+               '"defined" follows the strictest wording: no signed overflow, divisor != 0 (integers), no MIN / -1, shift count '
+               'in [0, width of promoted left operand), signed << only for non-negative values whose result is representable '
+               '(C++11/14); >> of negative values is arithmetic (implementation-defined before C++20, gcc/clang); floating '
+               'arithmetic including x/0.0 is taken as IEC 60559 defines it (C++ leaves it formally undefined)',
+               'a NaN result is matched by any NaN (C++ fixes neither sign nor payload)',
+               'operator pairs that are ill-formed in C++ (% & | ^ << >> ~ with a floating operand) are outside the property and not checked',
+               'tree evaluation: every entry of namespace op carries exactly one raw operator bit; a condition / left operand of && || '
+               'is "false"/"true" by the real to<bool>() (abstracted as a free truth value per child); primitive tags are exactly '
+               'one of none, the eleven arithmetic tags, ptr']
+NOT_REACHED = ['primitive::load / loadHex / loadBinary (literal typing) - not built; native evidence of defects in proposed/C14/NOTES.md',
+               'compound-assignment and increment/decrement operator functions (assign, addEq ... leftShiftEq, leftIncrement ...): '
+               'their operands must be lvalues, literals are not, so no constant expression of the property reaches them',
+               'primitive::compare (<=> has no arithmetic result type in C++)',
+               'binaryOperator_t::operator() / unaryOperator_t::operator() dispatch switch (operator.cpp) - modelled as a ghost application',
+               'rightUnaryOpNode, parenthesesNode, primitiveNode::evaluate (one-line forwarders), expression parsing, preprocessor #if driver',
+               'toString/source text of folded values']
 
 PRIM_CPP = 'src/types/primitive.cpp'
 PRIM_HPP = 'include/occa/types/primitive.hpp'
@@ -67,7 +109,53 @@ OPS = [
     ('rightShift',    2, 'x >> y',   False, True,  'rightShift'),
     ('leftShift',     2, 'x << y',   False, True,  'leftShift'),
 ]
-SMT_OPS = ('mult', 'div', 'mod')      # SAT times out on 64-bit * / %
+# Back ends.  SAT cannot close the equivalence of two 64-bit (or floating-point) multipliers/dividers; cvc5
+# does it in a fraction of a second (bit-vector and floating-point theories, terms are hash-consed).  The
+# SMT back end of CBMC cannot translate byte-level access to a float (areBitwiseEqual), so the two
+# operators that use it stay on SAT (they contain no multiplication).
+ARITH_CHECKS = ['--signed-overflow-check', '--div-by-zero-check', '--undefined-shift-check']
+PTR_CHECKS = ['--bounds-check', '--pointer-check', '--pointer-overflow-check']
+INT_SMT_OPS = ('mult', 'div', 'mod')
+
+
+def _chunks(prefix, solver, pairs, n):
+    if len(pairs) <= n:
+        return [(prefix, solver, pairs)]
+    k = (len(pairs) + n - 1) // n
+    size = (len(pairs) + k - 1) // k
+    return [('%s-%d' % (prefix, i + 1), solver, pairs[i * size:(i + 1) * size]) for i in range(k)]
+
+
+def plan(op, arity, integral, tys, bytewise=False):
+    """Partition the operand-type cases of one operator into CBMC runs: [(name suffix, solver, cases)].
+    Every run costs ~3 s of fixed overhead (twice with the canary run) and the SMT back end is not
+    incremental, so SMT cases go in small batches and SAT cases in large ones.
+      * integer x integer: SAT in one batch, except * / % (cvc5, one batch per left operand type);
+      * any floating operand: cvc5 (hash-consed floating-point terms; SAT needs minutes for the int->float
+        conversions and cannot do * and / at all), except when the operator text accesses floats byte-wise
+        (areBitwiseEqual), which CBMC's SMT back end cannot translate -> SAT."""
+    ints = [t for t in tys if t[0] not in FLOATS]
+    flts = [] if integral else [t for t in tys if t[0] in FLOATS]
+    if arity == 1:
+        return [('', None, [(t, None) for t in ints + flts])]
+    out = []
+    if op in INT_SMT_OPS:
+        for a in ints:
+            out += _chunks('/%s-int' % a[0], 'cvc5', [(a, b) for b in ints], 6)
+    else:
+        out += _chunks('/int-int', None, [(a, b) for a in ints for b in ints], 50)
+    if flts:
+        solver = None if bytewise else 'cvc5'
+        fl = [(a, b) for a in ints for b in flts] + [(a, b) for a in flts for b in ints + flts]
+        if op in ('mult', 'div'):
+            # expensive floating-point terms: small batches, by class of left operand
+            n = 5 if op == 'div' else 12
+            out += _chunks('/int-flt', solver, [(a, b) for a in ints for b in flts], n)
+            for a in flts:
+                out += _chunks('/%s-any' % a[0], solver, [(a, b) for b in ints + flts], n)
+        else:
+            out += _chunks('/flt', solver, fl, 12)
+    return out
 
 
 def WS(sig):
@@ -104,6 +192,20 @@ def tags_enum(ctx):
     text = re.sub(r'\b[A-Za-z_]\w*\b', pref, text)
     ns.rules.append(('C: primitiveType::N -> primitiveType_N (no namespaces in C)', n))
     return text + ';', ns
+
+
+def tag_values(ctx):
+    """Numeric values of the real primitiveType constants, by evaluating the real initialiser text."""
+    ns = extract_block(ctx, PRIM_HPP, r'^\s*namespace primitiveType \{', name='namespace primitiveType')
+    env = {}
+    for name, expr in re.findall(r'static const int (\w+)\s*=([^;]*);', ns.text):
+        if not re.fullmatch(r'[\w\s()|<&]+', expr):
+            raise Undecided('extraction break: primitiveType::%s has an unexpected initialiser' % name)
+        try:
+            env[name] = int(eval(expr, {'__builtins__': {}}, dict(env)))
+        except Exception as e:
+            raise Undecided('extraction break: cannot evaluate primitiveType::%s (%s)' % (name, e))
+    return env
 
 
 def value_union(ctx):
@@ -340,12 +442,14 @@ def pair_harness(op, arity, expr, boolres, defmacro, ta, tb):
   if (%(guard)s) {   /* the C++ result is defined */
     verif_raised = 0;
     primitive r = %(call)s;
+#ifndef CANARY   /* the canary run only asks whether this point is reachable */
     __CPROVER_assert(!verif_raised, "%(label)s: no error is raised for an expression C++ defines");
     if (!verif_raised) {
       __CPROVER_assert(r.type == C14_TAGOF(%(e)s), "%(label)s: result type (signedness and width) is the C++ type of the expression");
       __CPROVER_assert(C14_SAME(r, %(e)s), "%(label)s: result value equals the C++ value");
     }
-    c14_reached++;
+#endif
+    c14_reached += (r.type != 0);
   }
 }
 ''' % dict(fn=fn, decl=decl, guard=guard, call=call, label=label, e=e)
@@ -357,17 +461,10 @@ def op_groups(ctx, unit, types):
     tys = [t for t in ALL_TYPES if t[0] in types]
     for op, arity, expr, boolres, integral, defmacro in OPS:
         text, f = unit.op(op, arity)
-        # one group per (operator, left operand type): small SAT/SMT instances, good load balance
-        if arity == 1:
-            parts = [('', [(ta, None) for ta in tys])]
-        else:
-            parts = [('/' + ta[0], [(ta, tb) for tb in tys]) for ta in tys]
-        for suffix, pairs in parts:
+        parts = plan(op, arity, integral, tys, bytewise='areBitwiseEqual' in text)
+        for suffix, solver, pairs in parts:
             hs, calls = [], []
             for ta, tb in pairs:
-                # ill-formed in C++ (integral operand required): outside the property
-                if integral and (ta[0] in FLOATS or (tb and tb[0] in FLOATS)):
-                    continue
                 fn, label, h = pair_harness(op, arity, expr, boolres, defmacro, ta, tb)
                 hs.append(h)
                 calls.append('  %s();' % fn)
@@ -380,19 +477,248 @@ def op_groups(ctx, unit, types):
                    '(its definedness precondition is satisfiable)");\n#endif\n}\n' % len(hs))
             groups.append(Group(
                 name='op/%s%s' % (op, suffix), sources={'prim.c': src}, entry='h_entry', lang='c',
-                solver='cvc5' if op in SMT_OPS else None, unwind=9,
-                min_obligations=3 * len(hs), timeout=900 if op in SMT_OPS else 600,
+                solver=solver, unwind=9, checks=ARITH_CHECKS + (PTR_CHECKS if 'areBitwiseEqual' in text else []),
+                min_obligations=3 * len(hs), timeout=int(os.environ.get('C14_TIMEOUT', '600')),
                 functions=[f] + unit.common_ex, canary='CANARY', canary_label='canary',
                 strength='proof', param='%d operand-type cases' % len(hs),
                 note='areBitwiseEqual loops have constant trip counts (4 / 8 bytes), fully unwound',
-                replay=replay_C14.replay_operator))
+                replay=None if os.environ.get('C14_NO_REPLAY') else replay_C14.replay_operator))
+    return groups
+
+
+# ------------------------------------------------------------------ fidelity of the C extraction (thorough)
+
+FID_VALUES = {
+    'bool': ['0', '1'],
+    'signed': ['0', '1', '2', '5', '-1', '-7'],
+    'unsigned': ['0', '1', '2', '5', '~0'],
+    'float': ['0.0', '1.5', '-2.5', '3.0'],
+}
+SMALL = ('0', '1', '2', '5')
+
+
+def _fid_class(t):
+    return 'bool' if t == 'bool' else 'float' if t in FLOATS else 'unsigned' if t.startswith('u') else 'signed'
+
+
+def _fid_lit(t, v):
+    cty = dict((x[0], x[1]) for x in ALL_TYPES)[t]
+    if t == 'float':
+        return '%sf' % v
+    if t == 'double':
+        return v
+    return '((%s) %s)' % (cty, v)
+
+
+def fidelity_cases(types, bytewise_ops=()):
+    """Concrete operand vectors on which every operator is defined in C++ (small magnitudes: no signed
+    overflow, no zero divisor, shift counts 0..5 on non-negative left operands)."""
+    cases = []
+    tys = [t for t in ALL_TYPES if t[0] in types]
+    k = 0
+    for op, arity, expr, boolres, integral, defmacro in OPS:
+        for ta in tys:
+            for tb in (tys if arity == 2 else [None]):
+                if integral and (ta[0] in FLOATS or (tb and tb[0] in FLOATS)):
+                    continue
+                if op in bytewise_ops and tb and ta[0] != tb[0] and (ta[0] in FLOATS or tb[0] in FLOATS):
+                    # the unfixed equal/notEqual read union bytes the constructor never wrote (indeterminate):
+                    # no deterministic native result to compare with; the defect itself is reported by op/equal, op/notEqual
+                    continue
+                xs = FID_VALUES[_fid_class(ta[0])]
+                ys = FID_VALUES[_fid_class(tb[0])] if tb else [None]
+                combos = [(x, y) for x in xs for y in ys]
+                if op in ('div', 'mod'):
+                    combos = [(x, y) for x, y in combos if y not in ('0', '0.0') or tb[0] in FLOATS]
+                if op in ('leftShift', 'rightShift'):
+                    combos = [(x, y) for x, y in combos if y in SMALL and (x in SMALL or (op == 'rightShift' and x != '~0'))]
+                # two vectors per case, chosen by a fixed stride so that different cases see different values
+                for j in range(2):
+                    if not combos:
+                        break
+                    x, y = combos[(k * 5 + j * 7) % len(combos)]
+                    cases.append((op, arity, ta[0], x, tb[0] if tb else None, y))
+                k += 1
+    return cases
+
+
+FID_PROG = r"""
+#include <occa/types/primitive.hpp>
+#include <cstdio>
+#include <cstring>
+using occa::primitive;
+int main() {
+  primitive r; bool raised; unsigned long long bits;
+@BODY@
+  return 0;
+}
+"""
+
+
+def fidelity_groups(ctx, unit, types):
+    """Front-end / translation fidelity (DESIGN 3.5): the real compiled library and the extracted C text,
+    run on the same concrete operands, must agree on (raised, tag, value bits)."""
+    from vp import replaylib
+    tv = tag_values(ctx)
+    cases = fidelity_cases(types, [o[0] for o in OPS if 'areBitwiseEqual' in unit.op(o[0], o[1])[0]])
+    body = []
+    for i, (op, arity, ta, x, tb, y) in enumerate(cases):
+        args = 'primitive(%s)' % _fid_lit(ta, x) + (', primitive(%s)' % _fid_lit(tb, y) if arity == 2 else '')
+        body.append('  raised = false; r = primitive(); try { r = primitive::%s(%s); } catch (...) { raised = true; }\n'
+                    '  bits = 0; memcpy(&bits, &r.value, r.sizeof_() <= 8 ? r.sizeof_() : 8); '
+                    'printf("%d %%d %%d %%llu\\n", (int) raised, r.type, bits);' % (op, args, i))
+    try:
+        rc, out, src = replaylib.compile_run(ctx, 'fidelity', FID_PROG.replace('@BODY@', '\n'.join(body)), timeout=300)
+    except Exception as e:
+        raise Undecided('fidelity test: native program could not be built/run: %s' % str(e)[-400:])
+    native = {}
+    for l in out.splitlines():
+        f = l.split()
+        if len(f) == 4 and f[0].isdigit():
+            native[int(f[0])] = (int(f[1]), int(f[2]), int(f[3]))
+    if rc != 0 or len(native) != len(cases):
+        raise Undecided('fidelity test: native run gave %d of %d results (rc=%s)' % (len(native), len(cases), rc))
+    groups = []
+    byop = {}
+    for i, c in enumerate(cases):
+        byop.setdefault(c[0], []).append((i, c))
+    opnames = [o[0] for o in OPS]
+    batches = [opnames[i:i + 4] for i in range(0, len(opnames), 4)]
+    for bi, batch in enumerate(batches):
+        texts, fns, hs = [], [], []
+        for op in batch:
+            arity = [o[1] for o in OPS if o[0] == op][0]
+            t, f = unit.op(op, arity)
+            texts.append(t)
+            fns.append(f)
+            for i, (op_, ar, ta, x, tb, y) in byop.get(op, []):
+                raised, tag, bits = native[i]
+                args = 'PRIM(%s)' % _fid_lit(ta, x).replace('(bool)', '(_Bool)') + \
+                       (', PRIM(%s)' % _fid_lit(tb, y).replace('(bool)', '(_Bool)') if ar == 2 else '')
+                label = 'fidelity %s(%s%s) on (%s%s): the extracted C text computes what the compiled library computes' % (
+                    op, ta, ',' + tb if tb else '', x, ',' + y if y is not None else '')
+                isnan = ((tag == tv['float_'] and (bits & 0x7fffffff) > 0x7f800000) or
+                         (tag == tv['double_'] and (bits & 0x7fffffffffffffff) > 0x7ff0000000000000))
+                val = 'c14_isnan(r)' if isnan else 'c14_bits(r) == %dul' % bits      # NaN sign/payload is not fixed by C++
+                hs.append('  { verif_raised = 0; primitive r = primitive_%s(%s);\n'
+                          '    __CPROVER_assert(verif_raised == %d && (verif_raised || (r.type == %d && %s)), "%s"); ++n; }'
+                          % (op, args, raised, tag, val, label))
+        src = (unit.common + '\n' + '\n'.join(texts) + r"""
+static unsigned long c14_bits(primitive r) {   /* the bytes of the member the tag designates */
+  switch (r.type) {
+  case primitiveType_bool_: return r.value.bool_;
+  case primitiveType_int8_: case primitiveType_uint8_: return r.value.uint8_;
+  case primitiveType_int16_: case primitiveType_uint16_: return r.value.uint16_;
+  case primitiveType_int32_: case primitiveType_uint32_: return r.value.uint32_;
+  case primitiveType_float_: { union { float f; uint32_t u; } c; c.f = r.value.float_; return c.u; }
+  case primitiveType_int64_: case primitiveType_uint64_: return r.value.uint64_;
+  case primitiveType_double_: { union { double f; uint64_t u; } c; c.f = r.value.double_; return c.u; }
+  default: return 0;
+  }
+}
+static _Bool c14_isnan(primitive r) {
+  return r.type == primitiveType_float_ ? (r.value.float_ != r.value.float_) : (r.value.double_ != r.value.double_);
+}
+void h_entry(void) {
+  int n = 0;
+""" + '\n'.join(hs) + '\n#ifdef CANARY\n  __CPROVER_assert(n != %d, "canary: all fidelity vectors executed");\n#endif\n}\n' % len(hs))
+        groups.append(Group(
+            name='fidelity/%d-%s' % (bi + 1, '+'.join(batch)), sources={'prim.c': src}, entry='h_entry', lang='c',
+            unwind=9, checks=ARITH_CHECKS, min_obligations=len(hs), timeout=900, functions=fns + unit.common_ex,
+            canary='CANARY', canary_label='canary', strength='proof', param='%d concrete vectors' % len(hs),
+            note='concrete operands; expected (raised, tag, bits) printed by a native program linked against the freshly built libocca'))
+    return groups
+
+
+# ------------------------------------------------------------------ part 2: unevaluated operands
+
+OPERATOR_CPP = 'src/occa/internal/lang/operator.cpp'
+NODES = [('binaryOpNode', 'src/occa/internal/lang/expr/binaryOpNode.cpp', 'src/occa/internal/lang/expr/binaryOpNode.hpp',
+          ['exprNode *leftValue, *rightValue;']),
+         ('ternaryOpNode', 'src/occa/internal/lang/expr/ternaryOpNode.cpp', 'src/occa/internal/lang/expr/ternaryOpNode.hpp',
+          ['exprNode *checkValue, *trueValue, *falseValue;']),
+         ('leftUnaryOpNode', 'src/occa/internal/lang/expr/leftUnaryOpNode.cpp', 'src/occa/internal/lang/expr/leftUnaryOpNode.hpp',
+          ['exprNode *value;'])]
+
+
+def eval_groups(ctx):
+    from vp import replay_C14
+    exs = []
+    tags = extract_block(ctx, PRIM_HPP, r'^\s*namespace primitiveType \{', name='namespace primitiveType')
+    bf = extract_block(ctx, BITS_HPP, r'^\s*class bitfield \{', name='class bitfield')
+    raw = extract_block(ctx, OPERATOR_CPP, r'^\s*namespace rawOperatorType \{', name='namespace rawOperatorType (definitions)')
+    opt = extract_block(ctx, OPERATOR_CPP, r'^\s*namespace operatorType \{', name='namespace operatorType (definitions)')
+    exs += [tags, bf, raw, opt]
+    ntags = len(re.findall(r'static const int (\w+)\s*=', tags.text))
+    tags_cpp = rewrite(tags, [
+        ('static const int N = e; -> enumerator (the C++ front end gives constants that are DERIVED from other constants, '
+         'e.g. isInteger = isSigned | isUnsigned, a wrong value; enumerators are folded correctly)',
+         r'static const int (\w+)(\s*)=([^;]*);', r'\1\2=\3,', ntags),
+        ('... inside one anonymous enum of the same namespace', r'(namespace primitiveType \{)', r'\1 enum {', 1),
+        ('... inside one anonymous enum of the same namespace', r'\}\s*\Z', '}; }', 1)])
+    raw_text = rewrite(raw, [
+        ('direct-initialisation of a const scalar `const T n (e);` -> `const T n = e;` (same meaning [dcl.init]; the '
+         'parenthesised form crashes the front end)', r'const rawOpType_t (\w+)(\s*)\((.*?)\);', r'const rawOpType_t \1\2= \3;', None)])
+    # skeleton fidelity: the members the skeleton declares are the real ones
+    hpp = ctx.read('src/occa/internal/lang/expr/exprOpNode.hpp')
+    if not re.search(r'const operator_t &op;', hpp):
+        raise Undecided('extraction break: exprOpNode::op is no longer `const operator_t &op`')
+    bodies = []
+    for cls, cpp, hdr, members in NODES:
+        h = ctx.read(hdr)
+        for m in members:
+            if m not in h:
+                raise Undecided('extraction break: %s no longer declares `%s`' % (cls, m))
+        f = extract_function(ctx, cpp, WS('primitive %s::evaluate() const {' % cls), name='%s::evaluate' % cls)
+        bodies.append(f.text)
+        exs.append(f)
+    preds = []
+    for nm in ('isNaN', 'isBool', 'isSigned', 'isUnsigned', 'isInteger', 'isFloat', 'isPointer'):
+        pf = extract_function(ctx, PRIM_HPP, WS('inline bool %s() const {' % nm), name='primitive::%s' % nm)
+        preds.append(pf.text)
+        exs.append(pf)
+    skeleton = ctx.contract('C14/expr_skeleton.hpp')
+    if skeleton.count('/*@PRIMITIVE_PREDICATES@*/') != 1:
+        raise Undecided('expr_skeleton.hpp: placeholder missing')
+    skeleton = skeleton.replace('/*@PRIMITIVE_PREDICATES@*/', '\n'.join(preds))
+    cond = ['#include <stdint.h>\n#include <stdbool.h>\n' + tags_enum(ctx)[0],
+            '#define C14_NO_PRIMITIVE\n#include "C14/spec.h"',
+            'static const int c14_tags[] = { %s };' % ', '.join('primitiveType_' + t[2] for t in ALL_TYPES),
+            'int c14_ntags(void) { return %d; }' % len(ALL_TYPES),
+            'int c14_tag_at(int i) { return c14_tags[i]; }',
+            '/* tag of the conditional expression for every pair of operand types, by CBMC\'s C typing\n'
+            '   ([expr.cond]/7: usual arithmetic conversions; same in C 6.5.15) */',
+            'int c14_cond_tag(int ta, int tb) {']
+    for a in ALL_TYPES:
+        for b in ALL_TYPES:
+            ca = '_Bool' if a[0] == 'bool' else a[1]
+            cb = '_Bool' if b[0] == 'bool' else b[1]
+            cond.append('  if (ta == primitiveType_%s && tb == primitiveType_%s) return C14_TAGOF(1 ? (%s)0 : (%s)0);'
+                        % (a[2], b[2], ca, cb))
+    cond.append('  return -1;\n}')
+    unit = '\n'.join([
+        '#include <verif_base.h>',
+        'namespace occa {', '  typedef uint64_t udim_t;', tags_cpp, bf.text + ';', '}',
+        skeleton,
+        'namespace occa { namespace lang {', raw_text, opt.text] + bodies + ['}}',
+        ctx.contract('C14/expr_harness.cpp')])
+    groups = []
+    for entry, mino in [('h_binary', 8), ('h_ternary', 6), ('h_leftUnary', 2)]:
+        groups.append(Group(
+            name='eval/' + entry[2:], sources={'expr.cpp': unit, 'condtag.c': '\n'.join(cond)}, entry=entry, lang='cpp',
+            checks=[], min_obligations=mino, functions=exs, canary='CANARY', canary_label='canary',
+            strength='proof', timeout=300, unwind=2, object_bits=12,
+            note='no loops; children are ghost nodes counting evaluations; operator application is a ghost record',
+            replay=None if os.environ.get('C14_NO_REPLAY') else replay_C14.replay_eval))
     return groups
 
 
 def build(ctx):
     unit = Unit(ctx)
     types = LITERAL_TYPES if ctx.tier == 'quick' else [t[0] for t in ALL_TYPES]
-    groups = op_groups(ctx, unit, types)
+    groups = op_groups(ctx, unit, types) + eval_groups(ctx)
+    if ctx.tier == 'thorough' or os.environ.get('C14_FIDELITY'):
+        groups += fidelity_groups(ctx, unit, types)
     only = os.environ.get('C14_ONLY')          # development aid: run a subset of the groups
     if only:
         groups = [g for g in groups if re.search(only, g.name)]
